@@ -90,6 +90,63 @@ pub(crate) fn for_each_history(prefix: &str, only: &Option<String>, f: &mut dyn 
     rec(&mut id, &mut Vec::new(), max, &alpha, &toks, only, f);
 }
 
+/// Second enumeration: all WELL-FORMED histories over THREE threads of at most `max3_events()` events (an
+/// invocation only on an idle thread, a return only for the operation in flight and of its kind). Two threads
+/// cannot show a fault that needs a prerequisite on two different peers, or a peer with a smaller id whose
+/// operations are already placed while a larger one's are not. Ids: `<prefix>3:I0WB|R0ok|I1WA|..`.
+pub(crate) fn max3_events() -> usize {
+    std::env::var("VERIF_ORACLE_EVENTS3").ok().and_then(|s| s.parse().ok()).unwrap_or(6)
+}
+
+pub(crate) fn for_each_wf_history3(prefix: &str, only: &Option<String>, f: &mut dyn FnMut(&str, &[Ev])) {
+    let mut max = max3_events();
+    if let Some(o) = only {
+        if !o.starts_with(&format!("{}3:", prefix)) {
+            return;
+        }
+        max = max.max(o.matches('|').count() + 1);
+    }
+    fn rec(id: &mut String, evs: &mut Vec<Ev>, fl: &mut [Option<Op>; 3], max: usize, only: &Option<String>, f: &mut dyn FnMut(&str, &[Ev])) {
+        if let Some(o) = only {
+            if !o.starts_with(id.as_str()) {
+                return;
+            }
+        }
+        if !evs.is_empty() {
+            f(id, evs);
+        }
+        if evs.len() == max {
+            return;
+        }
+        let len = id.len();
+        for t in 0..3u8 {
+            let choices: Vec<Ev> = match &fl[t as usize] {
+                None => vec![Ev::Inv(t, RegisterOp::Write('A')), Ev::Inv(t, RegisterOp::Write('B')), Ev::Inv(t, RegisterOp::Read)],
+                Some(RegisterOp::Write(_)) => vec![Ev::Ret(t, RegisterRet::WriteOk)],
+                Some(RegisterOp::Read) => vec![Ev::Ret(t, RegisterRet::ReadOk('A')), Ev::Ret(t, RegisterRet::ReadOk('B'))],
+            };
+            for e in choices {
+                let saved = fl[t as usize].clone();
+                fl[t as usize] = match &e {
+                    Ev::Inv(_, op) => Some(op.clone()),
+                    Ev::Ret(..) => None,
+                };
+                if !evs.is_empty() {
+                    id.push('|');
+                }
+                id.push_str(&token(&e));
+                evs.push(e);
+                rec(id, evs, fl, max, only, f);
+                evs.pop();
+                id.truncate(len);
+                fl[t as usize] = saved;
+            }
+        }
+    }
+    let mut id = format!("{}3:", prefix);
+    rec(&mut id, &mut Vec::new(), &mut [None, None, None], max, only, f);
+}
+
 // ------------------------------------------------------------------------------------------------
 // Reference model
 // ------------------------------------------------------------------------------------------------
@@ -106,7 +163,7 @@ pub(crate) struct OpRec {
 /// well-formed prefix and the index of the first ill-formed event, if any.
 pub(crate) fn model(events: &[Ev]) -> (Vec<OpRec>, Option<usize>) {
     let mut ops: Vec<OpRec> = Vec::new();
-    let mut in_flight: [Option<usize>; 2] = [None, None];
+    let mut in_flight: [Option<usize>; 3] = [None, None, None];
     for (i, e) in events.iter().enumerate() {
         match e {
             Ev::Inv(t, op) => {
@@ -367,7 +424,7 @@ const SPEC: Spec = Spec {
 
 pub fn run(ctx: &mut Ctx) {
     let only = ctx.only.clone();
-    for_each_history("lin", &only, &mut |base, events| {
+    let mut one = |ctx: &mut Ctx, base: &str, events: &[Ev]| {
         if !wants_any(ctx, base, &SUFFIXES) {
             return;
         }
@@ -375,5 +432,7 @@ pub fn run(ctx: &mut Ctx) {
         let mut t = new_lin();
         let out = drive_caught(&mut t, events, first_bad, &lin_ser);
         judge(ctx, base, &SPEC, events, &ops, first_bad, &out);
-    });
+    };
+    for_each_history("lin", &only, &mut |base, events| one(ctx, base, events));
+    for_each_wf_history3("lin", &only, &mut |base, events| one(ctx, base, events));
 }
